@@ -192,7 +192,7 @@ pub fn run(num_vars: usize, folding: usize, rates: Vec<usize>, seed: u64) -> Res
         let fp = proof.whir.final_poly.as_ref().ok_or("final_poly")?;
         vc.observe_algebra_slice(fp.as_slice());
         let fin_rc = config.final_round_config();
-        for &idx in &sample_stir_indices(&mut vc, fin_rc.domain_size, config.final_sumcheck_rounds, config.final_queries) {
+        for &idx in &sample_stir_indices(&mut vc, fin_rc.domain_size, fin_rc.folding_factor, config.final_queries) {
             base_samples.push(BF::from_u64(idx as u64));
         }
         if let Some(ref fsc) = proof.whir.final_sumcheck {
@@ -297,7 +297,7 @@ pub fn run(num_vars: usize, folding: usize, rates: Vec<usize>, seed: u64) -> Res
     }
     let shape = json!({"num_variables": num_vars, "folding": folding, "rounds": rounds, "public_inputs": pubs.len(), "private_inputs": privs.len(),
         "ood_per_round": proof.whir.rounds.iter().map(|r| r.ood_answers.len()).collect::<Vec<_>>(), "queries_per_round": proof.whir.rounds.iter().map(|r| r.queries.len()).collect::<Vec<_>>(),
-        "final_queries": proof.whir.final_queries.len(), "final_sumcheck": proof.whir.final_sumcheck.is_some(), "ops": circuit.ops.len()});
+        "final_queries": proof.whir.final_queries.len(), "final_sumcheck": proof.whir.final_sumcheck.is_some(), "final_sumcheck_rounds": config.final_sumcheck_rounds, "ops": circuit.ops.len()});
     Ok(Outcome { rounds, honest_ok, per_kind, accepted_examples, calls: mock.log, shape })
 }
 
@@ -306,10 +306,10 @@ pub fn cmd(args: &[String]) -> i32 {
     let arg = |name: &str| args.iter().position(|a| a == name).and_then(|i| args.get(i + 1).cloned());
     let seed: u64 = arg("--seed").and_then(|s| s.parse().ok()).unwrap_or(1);
     let thorough = args.iter().any(|a| a == "--thorough");
-    let mut cfgs: Vec<(usize, usize, Vec<usize>)> = vec![(12, 4, vec![4]), (16, 4, vec![4, 4])];
+    // (14, 3): the number of variables is NOT a multiple of the folding factor (final sumcheck over 5 variables)
+    let mut cfgs: Vec<(usize, usize, Vec<usize>)> = vec![(12, 4, vec![4]), (16, 4, vec![4, 4]), (14, 3, vec![3, 3])];
     if thorough {
-        cfgs.push((10, 2, vec![3, 3]));
-        cfgs.push((14, 3, vec![3, 3]));
+        cfgs.push((20, 4, vec![4, 4, 4]));
     }
     for (nv, fold, rates) in cfgs {
         let r = catch_unwind(AssertUnwindSafe(|| run(nv, fold, rates.clone(), 40 + seed))).unwrap_or_else(|_| Err("panic".into()));
